@@ -82,6 +82,9 @@ func (j *JoinAcceptPayload) decode(buffer []byte, pos *int) error {
 	if err := j.DLSettings.decode(buffer, pos); err != nil {
 		return err
 	}
+	if len(buffer) <= *pos {
+		return ErrBufferTruncated
+	}
 	j.RxDelay = buffer[*pos]
 	*pos++
 	return nil
